@@ -389,7 +389,7 @@ func cmdCheck(args []string) int {
 	default:
 		ev.Verdict = "holds-within-bounds"
 	}
-	if id != "litmus" {
+	if strings.HasPrefix(id, "C") {
 		os.MkdirAll(filepath.Join(root, "evidence"), 0o755)
 		b, _ := json.MarshalIndent(ev, "", " ")
 		if err := os.WriteFile(filepath.Join(root, "evidence", id+".json"), b, 0o644); err != nil {
